@@ -51,6 +51,7 @@ macro_rules! resizable_impl {
                 CapCall::ReserveExact => v.reserve_exact(n),
                 CapCall::ShrinkTo => v.shrink_to(n),
                 CapCall::ShrinkToFit => v.shrink_to_fit(),
+                _ => unreachable!(),
             }
         }
         fn cap_call_typed<T: 'static>(v: &mut AnyVecTyped<'_, T, Self>, c: CapCall, n: usize) {
@@ -59,6 +60,7 @@ macro_rules! resizable_impl {
                 CapCall::ReserveExact => v.reserve_exact(n),
                 CapCall::ShrinkTo => v.shrink_to(n),
                 CapCall::ShrinkToFit => v.shrink_to_fit(),
+                _ => unreachable!(),
             }
         }
     };
